@@ -636,6 +636,17 @@ def e_edit_ext(p, what):
     return q, {"kind": "edit_non_accepted", "what": what, "site": ["X"]}
 
 
+def e_move_fn(p, fid, new_module):
+    """Moves the definition of a function to another (already existing, earlier imported) accepted module."""
+    q = clone(p)
+    f = q["fns"][fid]
+    old = f["module"]
+    q["order"][old].remove(("fn", fid))
+    q["order"][new_module].append(("fn", fid))
+    f["module"] = new_module
+    return q, {"kind": "move_function", "fn": f["name"], "from": old, "to": new_module, "site": ["X"]}
+
+
 def e_relocate(p, new_pkg):
     q = clone(p)
     q["pkg"] = new_pkg
